@@ -422,6 +422,28 @@ static void save_corpus(int s)
 		}
 }
 
+/* 8 consecutive octets of a secret inside a released block.  A window of 8 equal octets
+   identifies nothing: the degenerate secrets of the error variants (all 00, all FF) would
+   "match" any block cleared with that constant, e.g. a wipe that ends in a zero fill. */
+static int has_secret_window(const octet* hay, size_t hn, const octet* nee, size_t nn)
+{
+	size_t i, q;
+	if (nn < 8 || hn < 8)
+		return 0;
+	for (i = 0; i + 8 <= nn; ++i)
+	{
+		for (q = 1; q < 8 && nee[i + q] == nee[i]; ++q);
+		if (q == 8)
+		{
+			sk_count("probe.constant_secret_window_skipped", 1);
+			continue;
+		}
+		if (memmem(hay, hn, nee + i, 8))
+			return 1;
+	}
+	return 0;
+}
+
 static int scan_raw(int s, unsigned* blk, size_t* at)
 {
 	unsigned b;
@@ -430,7 +452,7 @@ static int scan_raw(int s, unsigned* blk, size_t* at)
 	for (i = 0; i < rawsec_cnt[s]; ++i)
 	{
 		for (b = 0; b < nsn[s]; ++b)
-			if (has_window(snapbuf[s] + snaps[s][b].off, snaps[s][b].size, rawsec[s] + o, rawsec_len[s][i], 8))
+			if (has_secret_window(snapbuf[s] + snaps[s][b].off, snaps[s][b].size, rawsec[s] + o, rawsec_len[s][i]))
 			{
 				*blk = b, *at = 0;
 				return 1;
